@@ -7,7 +7,7 @@ EXTENDS JetProg
 CONSTANTS Depth, Kinds
 
 Focals == {"ok", "fail", "failvar", "failset", "swok", "swfail"}
-Catches == {"none", "catch", "catchvar", "catchfail"}
+Catches == {"none", "catch", "catchvar", "catchfail", "catchvarshadow"}
 Outers == {"top", "inblock"}
 
 Focal(f) ==
@@ -25,10 +25,13 @@ MkC(par) ==
       try  == CASE c = "none"     -> TryS("try", r.main)
                 [] c = "catch"    -> TryCatchS("try", r.main, "", <<T("c0"), P("cctx", Ctx)>>)
                 [] c = "catchvar" -> TryCatchS("try", r.main, "e", <<T("c0"), P("cie", IsSetE("e")), P("cs", Var("s"))>>)
+                \* a variable named like the catch variable is already visible: the catch variable shadows it inside
+                \* the catch body only
+                [] c = "catchvarshadow" -> TryCatchS("try", r.main, "x3", <<T("c0"), P("cie", IsSetE("x3")), SetS("cset", "x3", Lit("incatch"))>>)
                 \* the catch body fails too: the try statement fails as a whole (an outer try takes it)
                 [] c = "catchfail" -> TryS("otry", <<TryCatchS("try", r.main, "", <<T("c0"), P("cf", FailE), T("c1")>>)>>)
       \* a later try that succeeds renders exactly its own body
-      main == <<T("pre"), LetS("ls", "s", Lit("s0"))>> \o Probes("a") \o <<try>> \o <<TryS("try2", <<T("t2"), P("t2s", Var("s"))>>)>> \o Probes("z")
+      main == <<T("pre"), LetS("ls", "s", Lit("s0"))>> \o (IF c = "catchvarshadow" THEN <<LetS("lx3", "x3", Lit("outer3"))>> ELSE <<>>) \o Probes("a") \o <<try>> \o <<TryS("try2", <<T("t2"), P("t2s", Var("s"))>>)>> \o (IF c = "catchvarshadow" THEN <<P("zx3", Var("x3"))>> ELSE <<>>) \o Probes("z")
       lib  == Tm("lib", "", <<>>, r.bl \o (IF o = "inblock" THEN <<BlockS("hostd", "host", <<>>, NoE, main)>> ELSE <<>>))
       ent  == IF o = "top" THEN Tm("main", "", <<"lib">>, main)
               ELSE Tm("main", "", <<"lib">>, <<YieldC("yh", "host", <<>>, NoE, <<T("C")>>)>>)
